@@ -60,6 +60,9 @@ type scheduler struct {
 	abort    interface{}   // panic value raised in a non-main goroutine
 	nextChan int
 	events   []string
+	fine     bool
+	preemptBudget int
+	settling *goroutine // goroutine waiting in settle(): resumed when nothing else is runnable
 }
 
 func newScheduler(in *Interp) *scheduler {
@@ -169,6 +172,18 @@ func (s *scheduler) pick(prefer *goroutine) *goroutine {
 		}
 	}
 	rs := s.runnable()
+	if s.settling != nil {
+		var others []*goroutine
+		for _, g := range rs {
+			if g != s.settling {
+				others = append(others, g)
+			}
+		}
+		if len(others) == 0 {
+			return s.settling
+		}
+		rs = others
+	}
 	if len(rs) == 0 {
 		return nil
 	}
@@ -227,17 +242,78 @@ func (s *scheduler) wedge() {
 	panic(pathEnd{"wedge", desc})
 }
 
+// settle runs all other goroutines until none of them is runnable.
+func (s *scheduler) settle() {
+	g := s.cur
+	for {
+		var next *goroutine
+		for _, o := range s.gs {
+			if o != g && o.status == gRunnable {
+				next = o
+				break
+			}
+		}
+		if next == nil {
+			return
+		}
+		s.settling = g
+		s.cur = next
+		next.resume <- struct{}{}
+		<-g.resume
+		s.cur = g
+		s.settling = nil
+		if s.killing {
+			panic(killedPanic{})
+		}
+		if g.id == 0 && g.wokeCase == -3 {
+			a := s.abort
+			s.abort = nil
+			g.wokeCase = 0
+			panic(a)
+		}
+	}
+}
+
 // maybeYield is a scheduling point for a goroutine that could continue.
 func (s *scheduler) maybeYield() {
-	if !s.explore {
+	// schedule exploration happens where a goroutine blocks (which runnable goroutine goes next)
+	// and at select (which ready case); preemption at non-blocking channel operations is explored
+	// in fine mode under a preemption bound (CHESS-style)
+	if !s.explore || !s.fine || s.preemptBudget <= 0 {
 		return
 	}
 	g := s.cur
-	rs := s.runnable()
-	if len(rs) <= 1 {
+	var others []*goroutine
+	for _, o := range s.runnable() {
+		if o != g {
+			others = append(others, o)
+		}
+	}
+	if len(others) == 0 {
 		return
 	}
-	s.yield(g)
+	c := s.in.Choose(1 + len(others))
+	if c == 0 {
+		return
+	}
+	s.preemptBudget--
+	next := others[c-1]
+	s.cur = next
+	next.resume <- struct{}{}
+	<-g.resume
+	s.cur = g
+	if s.killing {
+		panic(killedPanic{})
+	}
+	if g.id == 0 {
+		switch g.wokeCase {
+		case -3:
+			a := s.abort
+			s.abort = nil
+			g.wokeCase = 0
+			panic(a)
+		}
+	}
 }
 
 // killAll terminates all goroutines still alive at path end.
